@@ -56,7 +56,7 @@ async def explore(pid, tier, seed, m):
     rng = random.Random(seed * 977 + (6 if pid == "C06" else 7))
     st = {"evaluations": 0, "nontrivial": set(), "problems": [], "disagreements": [], "known": {}, "samples": [], "by_rule": {}, "generator_rejects": 0,
           "valid_docs": 0, "invalid_docs": 0, "parse_errors": 0}
-    nschemas, ndocs = ((fw.scale(8), 25) if pid == "C06" else (fw.scale(5), 16)) if tier == "quick" else (fw.scale(60), 60)
+    nschemas, ndocs = ((fw.scale(24), 30) if pid == "C06" else (fw.scale(5), 16)) if tier == "quick" else (fw.scale(80), 60)
     t0 = time.time()
     for si in range(nschemas):
         if time.time() - t0 > (100 if tier == "quick" else 1500): break
